@@ -24,6 +24,12 @@ Catalog.from_dataframe, grouped by their named patch), never from what the CorrF
     RedshiftData.from_corrfuncs(cross, ref, unk).data / .samples against w_sp / sqrt(dz^2 w_ss w_pp) of the EXACT
     model values in squared form with a first-order error bound (c04_meas_nz_case).
 A wrong value that IS the estimator normalised with the weights the CorrFunc stores is reported as such (bit 5).
+  * weights (random_spec(weights=True), weight_probe_specs): per sample one of the modes WMODES - objects of weight 0, masked
+    (patch, bin) cells, weights of both signs, cells / bins / whole samples whose weights cancel exactly, all weight in one
+    patch - on any of the four samples; a cell of a sample read without the binning is a whole patch.  A patch of total
+    weight 0 has no weighted centre (patch_name mode stops in np.average), such catalogs are created with patch_centers =
+    the nominal centres.  The model is unchanged: weights are summed in Coq from the records, a zero total leaves the
+    term undefined (nothing compared there), everything else is compared as before.
 """
 import shutil
 import traceback
